@@ -55,7 +55,7 @@ LEVEL_NOTE = (
     "shadowing between scopes is not exercised."
 )
 PROP = "C01"
-TARGETS = ["Tx3Proofs.C01", "Tx3Proofs.C01Assets", "Tx3Proofs.C01Lovelace", "Tx3Proofs.C01MultiAsset", "Tx3Proofs.C01Template", "Tx3Proofs.C01Spec", "Tx3Proofs.C01Change", "Tx3Proofs.C01Index", "Tx3Proofs.C01Datum", "Tx3Proofs.C01Field"]
+TARGETS = ["Tx3Proofs.C01", "Tx3Proofs.C01Assets", "Tx3Proofs.C01Lovelace", "Tx3Proofs.C01MultiAsset", "Tx3Proofs.C01Template", "Tx3Proofs.C01Spec", "Tx3Proofs.C01Change", "Tx3Proofs.C01Index", "Tx3Proofs.C01Datum", "Tx3Proofs.C01Field", "Tx3Proofs.C01Optional"]
 THEOREMS = ["Tx3.Lang.eval_int", "Tx3.Lang.lower_int", "Tx3.Lang.C01_int_fragment", "Tx3.Lang.C01_sub_chain",
             "Tx3.Lang.C01_sub_chain_distinct",
             "Tx3.assetsOfChildren_amt", "Tx3.reread_canonical", "Tx3.C01_assets_add", "Tx3.C01_assets_neg",
@@ -69,7 +69,8 @@ THEOREMS = ["Tx3.Lang.eval_int", "Tx3.Lang.lower_int", "Tx3.Lang.C01_int_fragmen
             "Tx3.nth?_spec", "Tx3.C01_list_index_exact", "Tx3.C01_struct_index_exact", "Tx3.C01_index_out_of_range",
             "Tx3.Lang.good", "Tx3.Lang.egood", "Tx3.Lang.C01_datum_exact", "Tx3.Lang.C01_redeemer_exact",
             "Tx3.Lang.C01_field_order_immaterial", "Tx3.Lang.C01_datum_fragment",
-    "Tx3.C01_input_field_value", "Tx3.Lang.lower_input_field", "Tx3.Lang.lower_record_with_spread", "Tx3.Lang.C01_spread_field_value"]
+    "Tx3.C01_input_field_value", "Tx3.Lang.lower_input_field", "Tx3.Lang.lower_record_with_spread", "Tx3.Lang.C01_spread_field_value",
+    "Tx3.C01_optional_output_kept_iff", "Tx3.C01_optional_output_error_kept"]
 RULE = (
     "cases = generated programs over the core fragment: env (Int, Bytes), 2-3 parties, a policy, an asset, a record "
     "and a variant type; one transaction with 1-3 positive Int parameters, optionally an unconstrained Int, a Bytes "
